@@ -40,6 +40,8 @@ type ProjectRunner struct {
 	processStates     map[string]*types.ProcessState
 	runProcMutex      sync.Mutex
 	startMutex        sync.Mutex
+	shutDownMutex     sync.Mutex
+	isShuttingDown    bool
 	runningProcesses  map[string]*Process
 	doneProcMutex     sync.Mutex
 	doneProcesses     map[string]*Process
@@ -107,7 +109,15 @@ func (p *ProjectRunner) Run() error {
 	for _, proc := range runOrder {
 		newConf := proc
 		verifYield("Run.loop", proc.ReplicaName)
+		// a shutdown requested while the project is still starting up must
+		// not be followed by the launch of the remaining processes
+		p.shutDownMutex.Lock()
+		if p.isShuttingDown {
+			p.shutDownMutex.Unlock()
+			break
+		}
 		p.runProcess(&newConf)
+		p.shutDownMutex.Unlock()
 	}
 	p.waitGroup.Wait()
 	log.Info().Msg("Project completed")
@@ -574,6 +584,9 @@ func (p *ProjectRunner) shutDownAndWait(shutdownOrder []*Process) {
 func (p *ProjectRunner) ShutDownProject() error {
 	verifYield("shutdown.enter", "")
 	defer verifYield("shutdown.return", "")
+	p.shutDownMutex.Lock()
+	p.isShuttingDown = true
+	p.shutDownMutex.Unlock()
 	p.runProcMutex.Lock()
 	defer p.runProcMutex.Unlock()
 
